@@ -50,6 +50,10 @@ func (g *genCtx) relName(maxDepth int) string {
 		cs = append(cs, g.comp())
 	}
 	s := strings.Join(cs, "/")
+	if g.hostile && g.r.chance(1, 25) {
+		// names that clean to the destination itself
+		return g.r.pick([]string{"/", "//", "./", ".", "a/..", "a/../", "/.", "b/../."})
+	}
 	if g.hostile && g.r.chance(1, 12) {
 		s = "/" + s
 	}
